@@ -116,18 +116,21 @@ def hkArm (v : Views F G) (s : Full F G) (now : Nat) : Full F G × Out :=
      cls := c.1, ctl := ctl' }, r.2)
 
 /-- Events of the whole sender: the housekeeping tick (the arm above) and every event of the shell.  The shell
-events `hk`, `syncTimeout`, `stamp` are the PARTS of the arm; a run of the real loop contains them only inside a
-tick (`FEv.wf`). -/
+events `hk`, `syncTimeout`, `stamp` are the PARTS of the arm; inside the loop they occur only as a tick.  Outside a
+tick the real sender performs `[.syncTimeout, .hk now]` WITHOUT classifier / controller / stamps exactly once: the
+pre-loop pass of `run_sender_with_config` ("Run housekeeping once before entering the main event loop"), so a real run
+is `[.other .syncTimeout, .other (.hk now0)] ++ loop events`.  A BARE `stamp` (verdicts that are inputs instead of the
+classifier's / controller's) never happens (`FEv.wf`). -/
 inductive FEv where
   | tick (now : Nat)
   | other (e : Ev)
 
-/-- An event the real loop can perform: a tick, or a shell event that is not a part of the arm. -/
+/-- An event the real sender can perform: a tick, or a shell event that is not a bare verdict stamp.  (`hk` /
+`syncTimeout` outside a tick are admitted: the pre-loop pass runs them once without the stamping loop; admitting them
+anywhere is a superset of the real runs.  Until audit 5 `wf` also rejected them, which excluded every real run.) -/
 def FEv.wf : FEv → Bool
   | .tick _ => true
-  | .other (.hk _) => false
   | .other (.stamp _ _ _ _ _) => false
-  | .other .syncTimeout => false
   | .other _ => true
 
 def Full.step (v : Views F G) (s : Full F G) : FEv → Full F G × Out
